@@ -26,7 +26,8 @@ class PythonExpression(Expression):
         out += STATUS << True
 
     def argumentize(self, out, flags):
-        return Code(self.source_code)
+        # One argument, also when the expression is a tuple without parentheses.
+        return Code(f'({self.source_code})')
 
 
 class PythonSection:
